@@ -51,6 +51,22 @@ namespace Alpha {
 }
 entity Root in [Zeta::Org, Alpha::Thing];
 `), Entities: []byte(`[{"uid":{"type":"Zeta::User","id":"u"},"parents":[{"type":"Zeta::Team","id":"t"},{"type":"Zeta::Org","id":"o"},{"type":"Zeta::Admins","id":"a"}],"attrs":{"name":"n","age":3},"tags":{"k":"v","a":"b"}},{"uid":{"type":"Zeta::Team","id":"t"},"parents":[{"type":"Zeta::Org","id":"o"}],"attrs":{},"tags":{}},{"uid":{"type":"Zeta::Org","id":"o"},"parents":[],"attrs":{},"tags":{}},{"uid":{"type":"Zeta::Admins","id":"a"},"parents":[],"attrs":{},"tags":{}}]`)},
+	{Name: "builtin-4-nested", Cedar: []byte(`type Zed = { y: Long, x: Set<Set<Long>>, w: { b: Bool, a: decimal } };
+type Alias = Zed;
+namespace Org::Unit {
+  type Inner = { q: Alias, p: Set<Alias>, o?: datetime };
+  entity Z, M, A;
+  entity Holder in [Z, M, A] { z: Inner, a: Set<Holder>, m?: duration } tags Set<String>;
+  entity Kind enum ["b", "a", "c"];
+  action z, m, a;
+  action top in [z, m, a];
+  action leaf in [top, z] appliesTo { principal: [Z, Holder, A], resource: [M, Holder], context: { zz: Inner, aa: Long } };
+}
+namespace Org {
+  entity Y in [Org::Unit::Z, Org::Unit::A];
+  action "na me" appliesTo { principal: Y, resource: Y, context: {} };
+}
+`)},
 	{Name: "builtin-2", Cedar: []byte(`namespace NS { type T = { a: Long, b: String }; entity E { t: T }; action a appliesTo { principal: E, resource: E }; }
 entity Z enum ["x", "y"];
 `)},
